@@ -168,6 +168,60 @@ def checkHrpdac (strsHex queriesHex hs ts occ t rules seqs loc abs : String) : S
   if !(modAbs.zip Q).all (fun (r, q) => (r == some 0) == !(S.contains q)) then "V absent-query-not-answered-0" else
   "V ok"
 
+/-- Prefix of the stream whose expansion has `n` terminals (greedy; `none` if it does not end on a symbol). -/
+def takeExp (g : RePair.Grammar) : Nat → List Nat → Nat → Option (List Nat)
+  | 0, _, _ => none
+  | _ + 1, _, 0 => some []
+  | fuel + 1, [], _ + 1 => none
+  | fuel + 1, x :: xs, n + 1 =>
+    let k := (g.expandSym x).length
+    if k = 0 ∨ k > n + 1 then none else (takeExp g fuel xs (n + 1 - k)).map (x :: ·)
+
+/-- The HASHRPF object exported by the real code against the exact table model and the hypotheses of
+`CSD.Hash.locateRPF_eq` (`StoresRPF`), and the model of the real `locate` run on those structures. -/
+def checkHrpf (strsHex queriesHex hs ts occ t mc rules cls offs loc abs : String) : String :=
+  let S : List Str := (splitComma strsHex).map unhex
+  let Q : List Str := (splitComma queriesHex).map unhex
+  let terminals := t.toNat?.getD 0
+  let T := mc.toNat?.getD 0
+  let rl := (splitComma rules).map fun e =>
+    match e.splitOn ":" with
+    | [a, b] => (a.toNat?.getD 0, b.toNat?.getD 0)
+    | _ => (0, 0)
+  let clsL := (splitComma cls).map fun x => x.toNat?.getD 0
+  let offL := (splitComma offs).map fun x => x.toNat?.getD 0
+  let g : RePair.Grammar := { terminals := terminals, rules := rl }
+  let d := Hash.build (hs.toNat?.getD 0) S
+  if d.tsize != ts.toNat?.getD 0 then s!"V table-size model={d.tsize} code={ts}" else
+  if !(d.tsize % 2 != 0 && Hash.oddTrial d.tsize (Nat.sqrt d.tsize + 2) 3) then "V table-size-not-accepted-by-nearest_prime" else
+  if !(S.length ≤ hs.toNat?.getD 0) then "V requested-size-below-the-number-of-strings" else
+  let modOcc := String.ofList (d.table.map fun c => if c.isSome then '1' else '0')
+  if modOcc != occ then "V occupancy-bitmap-differs" else
+  if !g.wf then "V rule-refers-forward" else
+  if !(clsL.all fun x => x < terminals + rl.length) then "V sequence-symbol-out-of-range" else
+  if !(S.all fun s => !(Hash.natBytes s).contains T) then "V terminator-occurs-in-a-string" else
+  -- offsets of the occupied cells, in cell order
+  let cells := (d.table.zipIdx).filterMap fun (c, i) => c.map fun k => (i, k)
+  if cells.length != offL.length then s!"V offsets={offL.length}-occupied={cells.length}" else
+  let offOf : Nat → Nat := fun cell => ((cells.zip offL).find? fun ((i, _), _) => i == cell).map (·.2) |>.getD 0
+  -- StoresRPF: from the offset of a cell on, symbols expanding to that cell's string and the terminator
+  if !((cells.zip offL).all fun ((_, k), o) =>
+        match S[k]? with
+        | some s =>
+          match takeExp g (s.length + 3) (clsL.drop o) (s.length + 1) with
+          | some syms => g.expand syms == Hash.natBytes s ++ [T]
+          | none => false
+        | none => false) then "V a-cell-offset-does-not-lead-to-its-string" else
+  let implLoc := (splitComma loc).map fun x => x.toNat?.getD 0
+  let implAbs := (splitComma abs).map fun x => x.toNat?.getD 0
+  let modLoc := S.map fun s => Hash.locateRPF d g T clsL offOf s
+  let modAbs := Q.map fun q => Hash.locateRPF d g T clsL offOf q
+  if modLoc != implLoc.map some then "V model-locate-differs-from-code-on-a-member" else
+  if modAbs != implAbs.map some then "V model-locate-differs-from-code-on-a-query" else
+  if modLoc != (S.map fun s => some (Hash.locate d s)) then "V locateRPF-differs-from-table-locate" else
+  if !(modAbs.zip Q).all (fun (r, q) => (r == some 0) == !(S.contains q)) then "V absent-query-not-answered-0" else
+  "V ok"
+
 /-- bit `k` of the hex-encoded byte string -/
 def bitsOfHex (h : String) (n : Nat) : List Bool :=
   let bytes := unhex h
@@ -219,6 +273,8 @@ def runCheckStreams (c : Case) (emit : Nat → String → IO Unit) : IO Unit := 
     | ["rpchk", maxchar, input, t, bits, rules, seq] => emit k (checkRePair maxchar input t bits rules seq)
     | ["rdchk", strs, qs, ps, t, rules, seqs, loc, abs, pre] => emit k (checkRpdac strs qs ps t rules seqs loc abs pre)
     | ["hdchk", strs, qs, hs, ts, occ, t, rules, seqs, loc, abs] => emit k (checkHrpdac strs qs hs ts occ t rules seqs loc abs)
+    | ["hfchk", strs, qs, hs, ts, occ, t, mc, rules, cls, offs, loc, abs] =>
+      emit k (checkHrpf strs qs hs ts occ t mc rules cls offs loc abs)
     | ["rdskip"] => emit k "V ok"
     | "bv" :: impl :: par :: n :: h :: _ => emit k (bvLine impl (par.toNat?.getD 0) (n.toNat?.getD 0) h)
     | "wt" :: _ :: syms :: _ => emit k (wtLine syms)
